@@ -10,38 +10,44 @@ Section HubThm.
   Variable veqb : option V -> option V -> bool.
   Hypothesis veqb_spec : forall a b, veqb a b = true <-> a = b.
   Variable E W : Type.
-  Variable feval : E -> snap V -> eout W.
+  Variable feval : E -> (pid -> bool) -> snap V -> eout W.
   Variable deps : E -> list pid.
   Variable coerce : pid -> option W -> eout V.
-  (* evaluation only looks at the reported dependencies (proved for the concrete language: Expr/Deps.v deps_sound) *)
-  Hypothesis frame : forall e s1 s2, (forall d, In d (deps e) -> s1 d = s2 d) -> feval e s1 = feval e s2.
+  (* evaluation only looks at the reported dependencies — their enabled flags and their values in the snapshot (proved for the
+     concrete language: Expr/Deps.v deps_sound) *)
+  Hypothesis frame : forall e f1 f2 s1 s2,
+    (forall d, In d (deps e) -> f1 d = f2 d) -> (forall d, In d (deps e) -> s1 d = s2 d) -> feval e f1 s1 = feval e f2 s2.
 
   Notation port := (port V E).
   Notation state := (state V E).
-  (* the evaluation task refreshes after its write; enable() forces the evaluation of all expressions *)
-  (* ... and whether disable() does too does not matter for what is proved here *)
+  (* the evaluation task refreshes after its write; enable() forces the evaluation of all expressions ... *)
   Variable dfa : bool.
+  (* ... and so does disable(): evaluation sees the live enabled flags (AVAILABLE($p) / DEFAULT($p, x) change value when p is
+     disabled), so the invariant needs it.  Only the lemmas about Disable (hence step_inv, run_inv, convergence) use it. *)
+  Hypothesis dfa_true : dfa = true.
   Notation step := (step V veqb E W feval deps coerce true true dfa).
   Notation run := (run V veqb E W feval deps coerce true true dfa).
   Notation lasts := (lasts V E).
-  Notation dep_off := (dep_off V E deps).
-  Notation follows := (follows V veqb E W feval deps coerce).
+  Notation ens := (@ens V E).
+  Notation follows := (follows V veqb E W feval coerce).
   Notation quiescent := (quiescent V veqb E).
 
-  (* the value the expression of q asks for in state s (None: a dependency is disabled, or evaluation / coercion error —
-     the property is silent) *)
+  (* the value the expression of q asks for in state s, over the live enabled flags and the current last read values
+     (None: evaluation / coercion error — the property is silent) *)
   Definition target (s : state) (q : pid) (e : E) : option (option V) :=
-    if dep_off s e then None
-    else match feval e (lasts s) with
-         | OErr => None
-         | OVal v => match coerce q v with OErr => None | OVal v' => Some v' end
-         end.
+    match feval e (ens s) (lasts s) with
+    | OErr => None
+    | OVal v => match coerce q v with OErr => None | OVal v' => Some v' end
+    end.
 
-  Definition agree (l : list pid) (s1 s2 : snap V) : Prop := forall d, In d l -> s1 d = s2 d.
+  Definition agree {A} (l : list pid) (s1 s2 : pid -> A) : Prop := forall d, In d l -> s1 d = s2 d.
 
   Lemma target_ext s s' q e :
-    dep_off s' e = dep_off s e -> agree (deps e) (lasts s') (lasts s) -> target s' q e = target s q e.
-  Proof. intros Hd Ha. unfold target. rewrite Hd, (frame e _ _ Ha). reflexivity. Qed.
+    agree (deps e) (ens s') (ens s) -> agree (deps e) (lasts s') (lasts s) -> target s' q e = target s q e.
+  Proof. intros Hd Ha. unfold target. rewrite (frame e _ _ _ _ Hd Ha). reflexivity. Qed.
+
+  Lemma ens_agree s s' l : (forall d, en (ports s' d) = en (ports s d)) -> agree l (ens s') (ens s).
+  Proof. intros H d _. unfold Hub.ens. apply H. Qed.
 
   Definition settled (s : state) (q : pid) (e : E) (x : port) : Prop :=
     match target s q e with
@@ -60,7 +66,6 @@ Section HubThm.
     \/ forced x = true
     \/ force_all s = true
     \/ (exists d, In d (deps e) /\ In d (changed_of s))
-    \/ dep_off s e = true
     \/ (exists sn, is_last (evq x) sn /\ agree (deps e) sn (lasts s))
     \/ (evq x = [] /\ settled s q e x).
 
@@ -114,11 +119,6 @@ Section HubThm.
     assert (Hin : In p (all_ids s)) by (apply mem_In; exact Hm). destruct (Hl p Hin) as [H1 H2]. rewrite H1, H2. reflexivity.
   Qed.
 
-  Lemma dep_off_ext s s' e : (forall d, en (ports s' d) = en (ports s d)) -> dep_off s' e = dep_off s e.
-  Proof.
-    intros H. unfold Hub.dep_off. induction (deps e) as [|d l IH]; [reflexivity|]. cbn [existsb]. rewrite H, IH. reflexivity.
-  Qed.
-
   Lemma upd_eq (f : pid -> port) p x : upd V E f p x p = x.
   Proof. unfold upd. rewrite Nat.eqb_refl. reflexivity. Qed.
 
@@ -133,15 +133,14 @@ Section HubThm.
     covered s q e -> covered s' q e.
   Proof.
     intros Hp Hfa Hen HL Hc Hcov. unfold covered in *. rewrite Hp.
-    pose proof (dep_off_ext s s' e Hen) as Hdo.
-    destruct Hcov as [H|[H|[H|[(d & Hd & Hin)|[H|[(sn & Hl & Ha)|(Hq & Hs)]]]]]].
+    pose proof (ens_agree s s' (deps e) Hen) as Hdo.
+    destruct Hcov as [H|[H|[H|[(d & Hd & Hin)|[(sn & Hl & Ha)|(Hq & Hs)]]]]].
     - left. exact H.
     - right. left. exact H.
     - right. right. left. apply Hfa. exact H.
     - right. right. right. left. exists d. split; [exact Hd|apply Hc; exact Hin].
-    - right. right. right. right. left. rewrite Hdo. exact H.
-    - right. right. right. right. right. left. exists sn. split; [exact Hl|]. intros d Hd. rewrite HL. apply Ha. exact Hd.
-    - right. right. right. right. right. right. split; [exact Hq|]. unfold settled in *.
+    - right. right. right. right. left. exists sn. split; [exact Hl|]. intros d Hd. rewrite HL. apply Ha. exact Hd.
+    - right. right. right. right. right. split; [exact Hq|]. unfold settled in *.
       rewrite (target_ext s s' q e Hdo); [exact Hs|]. intros d _. apply HL.
   Qed.
 
@@ -232,26 +231,24 @@ Section HubThm.
     last x = last (ports s p) -> en x = en (ports s p) -> forced x = forced (ports s p) ->
     covered s p e ->
     (forall sn, is_last (evq (ports s p)) sn -> agree (deps e) sn (lasts s) ->
-       (exists sn', is_last (evq x) sn' /\ agree (deps e) sn' (lasts s)) \/ (evq x = [] /\ settled s p e x) \/ dep_off s e = true) ->
+       (exists sn', is_last (evq x) sn' /\ agree (deps e) sn' (lasts s)) \/ (evq x = [] /\ settled s p e x)) ->
     (evq (ports s p) = [] -> settled s p e (ports s p) -> evq x = [] /\ settled s p e x) ->
     covered (set_port V E s p x) p e.
   Proof.
     intros Hlast Hen Hfo Hc Hq Hs. unfold covered in *. rewrite set_port_same.
     pose proof (lasts_set_port s p x Hlast Hen) as HL. pose proof (en_set_port s p x Hen) as HE.
-    pose proof (dep_off_ext s (set_port V E s p x) e HE) as Hdo.
+    pose proof (ens_agree s (set_port V E s p x) (deps e) HE) as Hdo.
     assert (Hset : forall y, settled s p e y -> settled (set_port V E s p x) p e y).
     { intros y Hy. unfold settled in *. rewrite (target_ext s _ p e Hdo); [exact Hy|]. intros d _. apply HL. }
-    destruct Hc as [H|[H|[H|[(d & Hd & Hin)|[H|[(sn & Hl & Ha)|(Hev & Hst)]]]]]].
+    destruct Hc as [H|[H|[H|[(d & Hd & Hin)|[(sn & Hl & Ha)|(Hev & Hst)]]]]].
     - left. rewrite Hen. exact H.
     - right. left. rewrite Hfo. exact H.
     - right. right. left. exact H.
     - right. right. right. left. exists d. split; [exact Hd|exact Hin].
-    - right. right. right. right. left. rewrite Hdo. exact H.
-    - destruct (Hq sn Hl Ha) as [(sn' & Hl' & Ha')|[(He' & Hs')|Hd']].
-      + right. right. right. right. right. left. exists sn'. split; [exact Hl'|]. intros d Hd. rewrite HL. apply Ha'. exact Hd.
-      + right. right. right. right. right. right. split; [exact He'|apply Hset; exact Hs'].
-      + right. right. right. right. left. rewrite Hdo. exact Hd'.
-    - destruct (Hs Hev Hst) as [He' Hs']. right. right. right. right. right. right. split; [exact He'|apply Hset; exact Hs'].
+    - destruct (Hq sn Hl Ha) as [(sn' & Hl' & Ha')|(He' & Hs')].
+      + right. right. right. right. left. exists sn'. split; [exact Hl'|]. intros d Hd. rewrite HL. apply Ha'. exact Hd.
+      + right. right. right. right. right. split; [exact He'|apply Hset; exact Hs'].
+    - destruct (Hs Hev Hst) as [He' Hs']. right. right. right. right. right. split; [exact He'|apply Hset; exact Hs'].
   Qed.
 
   (* ---------------- SourceSet *)
@@ -317,7 +314,7 @@ Section HubThm.
     (* the port after the evaluation, for either phase *)
     assert (Hgen : forall newph,
       (newph = Idle \/ exists v', newph = Writing v') ->
-      (rest = [] -> agree (deps e) sn (lasts s) -> dep_off s e = false ->
+      (rest = [] -> agree (deps e) sn (lasts s) ->
          match target s q e with
          | None => True
          | Some g => match newph with Writing v => v = g | _ => src (ports s q) = g end
@@ -330,8 +327,7 @@ Section HubThm.
         apply covered_local; cbn [src last expr evq ph forced en]; try reflexivity; [exact Hc| |].
         + intros sn' Hl Ha. rewrite Eevq in Hl. destruct rest as [|r0 rest'] eqn:Er.
           * apply is_last_single in Hl. subst sn'.
-            destruct (dep_off s e) eqn:Edo; [right; right; reflexivity|].
-            right. left. split; [reflexivity|]. unfold settled. cbn [ph src]. apply Hset; [reflexivity|exact Ha|reflexivity].
+            right. split; [reflexivity|]. unfold settled. cbn [ph src]. apply Hset; [reflexivity|exact Ha].
           * left. exists sn'. split; [apply (is_last_tail sn); [exact Hl|discriminate]|exact Ha].
         + intros Hev. rewrite Eevq in Hev. discriminate.
       - intros _ _. exact Hsync.
@@ -339,17 +335,18 @@ Section HubThm.
       - intros e' He'. injection He' as <-. exact Hns.
       - intros He'. discriminate.
       - intros He. exfalso. apply Hon. exact He. }
-    fold (dep_off s e) in H.
-    destruct (dep_off s e) eqn:Edo.
-    { injection H as <-. apply Hgen; [left; reflexivity|]. intros _ _ Hc'. discriminate. }
-    destruct (feval e sn) as [v|] eqn:Ef.
-    2:{ injection H as <-. apply Hgen; [left; reflexivity|]. intros _ Ha _. unfold target. rewrite Edo, <- (frame e sn (lasts s) Ha), Ef. exact I. }
+    (* the queued snapshot is evaluated over the live flags: when it agrees with the current values on the dependencies, the
+       result is the target *)
+    assert (Hfr : agree (deps e) sn (lasts s) -> feval e (ens s) (lasts s) = feval e (ens s) sn).
+    { intros Ha. symmetry. apply frame; [intros d _; reflexivity|exact Ha]. }
+    destruct (feval e (ens s) sn) as [v|] eqn:Ef.
+    2:{ injection H as <-. apply Hgen; [left; reflexivity|]. intros _ Ha. unfold target. rewrite (Hfr Ha). exact I. }
     destruct (coerce q v) as [v'|] eqn:Ec.
-    2:{ injection H as <-. apply Hgen; [left; reflexivity|]. intros _ Ha _. unfold target. rewrite Edo, <- (frame e sn (lasts s) Ha), Ef, Ec. exact I. }
+    2:{ injection H as <-. apply Hgen; [left; reflexivity|]. intros _ Ha. unfold target. rewrite (Hfr Ha). cbv beta iota. rewrite Ec. exact I. }
     destruct (veqb v' (last (ports s q))) eqn:Ev; injection H as <-.
-    - apply Hgen; [left; reflexivity|]. intros _ Ha _. unfold target. rewrite Edo, <- (frame e sn (lasts s) Ha), Ef, Ec.
+    - apply Hgen; [left; reflexivity|]. intros _ Ha. unfold target. rewrite (Hfr Ha). cbv beta iota. rewrite Ec.
       apply veqb_spec in Ev. rewrite Hsync. symmetry. exact Ev.
-    - apply Hgen; [right; exists v'; reflexivity|]. intros _ Ha _. unfold target. rewrite Edo, <- (frame e sn (lasts s) Ha), Ef, Ec. reflexivity.
+    - apply Hgen; [right; exists v'; reflexivity|]. intros _ Ha. unfold target. rewrite (Hfr Ha). cbv beta iota. rewrite Ec. reflexivity.
   Qed.
 
   (* ---------------- PassBegin *)
@@ -374,16 +371,14 @@ Section HubThm.
     constructor; subst s'; cbn [ports all_ids pass force_all].
     - intros q e Hq He. destruct (begin_refresh_fields (ports s q)) as (Hs & Hl & Hx & Hv & Hf & Hen). rewrite Hx in He.
       pose proof (inv_cov s HI q e Hq He) as Hc. unfold covered in *. cbn [ports force_all]. rewrite Hf, Hv, Hen.
-      rewrite (dep_off_ext s _ e HE).
-      destruct Hc as [H|[H|[H|[(d & Hd & Hin)|[H|[(sn & Hla & Ha)|(Hev & Hst)]]]]]].
+      destruct Hc as [H|[H|[H|[(d & Hd & Hin)|[(sn & Hla & Ha)|(Hev & Hst)]]]]].
       + left. exact H.
       + right. left. exact H.
       + right. right. left. exact H.
       + unfold changed_of in Hin. rewrite Ep in Hin. destruct Hin.
-      + right. right. right. right. left. exact H.
-      + right. right. right. right. right. left. exists sn. split; [exact Hla|]. intros d Hd. rewrite HL. apply Ha. exact Hd.
-      + right. right. right. right. right. right. split; [exact Hev|]. unfold settled in *.
-        rewrite (target_ext s _ q e (dep_off_ext s _ e HE)) by (intros d _; apply HL).
+      + right. right. right. right. left. exists sn. split; [exact Hla|]. intros d Hd. rewrite HL. apply Ha. exact Hd.
+      + right. right. right. right. right. split; [exact Hev|]. unfold settled in *.
+        rewrite (target_ext s _ q e (ens_agree s _ (deps e) HE)) by (intros d _; apply HL).
         destruct (target s q e) as [g|]; [|exact I]. rewrite Hs.
         apply settled_begin_refresh. exact Hst.
     - intros q Hq He Hph. destruct (begin_refresh_fields (ports s q)) as (Hs & Hl & Hx & Hv & Hf & Hen).
@@ -458,16 +453,15 @@ Section HubThm.
                         /\ ph (ports s' q) = ph (ports s q) /\ src (ports s' q) = src (ports s q)).
       { destruct (Nat.eq_dec q p) as [->|Hn]; [rewrite Hsame; repeat split|rewrite Hother by exact Hn; repeat split]. }
       destruct Hfields as (Hfo & Hev & Hph & Hsr).
-      pose proof (dep_off_ext s s' e HE) as Hdo.
-      unfold covered in *. rewrite Hfo, Hev, HE, Hdo. unfold changed_of in *. rewrite Ep in Hc.
+      pose proof (ens_agree s s' (deps e) HE) as Hdo.
+      unfold covered in *. rewrite Hfo, Hev, HE. unfold changed_of in *. rewrite Ep in Hc.
       replace (force_all s') with (force_all s) by reflexivity. replace (pass s') with (Some {| to_read := rest; changed := chg' |}) by reflexivity.
       cbn [changed].
-      destruct Hc as [H|[H|[H|[(d & Hd & Hin)|[H|Hrest]]]]].
+      destruct Hc as [H|[H|[H|[(d & Hd & Hin)|Hrest]]]].
       + left. exact H.
       + right. left. exact H.
       + right. right. left. exact H.
       + right. right. right. left. exists d. split; [exact Hd|apply Hchg; exact Hin].
-      + right. right. right. right. left. exact H.
       + destruct (veqb (src x) (last x)) eqn:Ev.
         * (* the value read is the one already known: nothing changes *)
           apply veqb_spec in Ev.
@@ -475,8 +469,8 @@ Section HubThm.
           { intros r. destruct (Nat.eq_dec r p) as [->|Hn]; [|apply HLo; exact Hn].
             unfold Hub.lasts. subst s'. cbn [all_ids ports]. rewrite upd_eq. subst x'. cbn [last en]. rewrite Ev. reflexivity. }
           destruct Hrest as [(sn & Hla & Ha)|(Hevq & Hst)].
-          -- right. right. right. right. right. left. exists sn. split; [exact Hla|]. intros d Hd. rewrite HL. apply Ha. exact Hd.
-          -- right. right. right. right. right. right. split; [exact Hevq|]. unfold settled in *.
+          -- right. right. right. right. left. exists sn. split; [exact Hla|]. intros d Hd. rewrite HL. apply Ha. exact Hd.
+          -- right. right. right. right. right. split; [exact Hevq|]. unfold settled in *.
              rewrite (target_ext s s' q e Hdo) by (intros d _; apply HL).
              destruct (target s q e) as [g|]; [|exact I]. rewrite Hph, Hsr. exact Hst.
         * (* a change was detected *)
@@ -485,8 +479,8 @@ Section HubThm.
           -- assert (Hag : agree (deps e) (lasts s') (lasts s)).
              { intros d Hd. apply HLo. intros ->. contradiction. }
              destruct Hrest as [(sn & Hla & Ha)|(Hevq & Hst)].
-             ++ right. right. right. right. right. left. exists sn. split; [exact Hla|]. intros d Hd. rewrite Hag by exact Hd. apply Ha. exact Hd.
-             ++ right. right. right. right. right. right. split; [exact Hevq|]. unfold settled in *.
+             ++ right. right. right. right. left. exists sn. split; [exact Hla|]. intros d Hd. rewrite Hag by exact Hd. apply Ha. exact Hd.
+             ++ right. right. right. right. right. split; [exact Hevq|]. unfold settled in *.
                 rewrite (target_ext s s' q e Hdo Hag).
                 destruct (target s q e) as [g|]; [|exact I]. rewrite Hph, Hsr. exact Hst.
     - intros q Hq He Hph. destruct (Nat.eq_dec q p) as [->|Hn].
@@ -559,16 +553,16 @@ Section HubThm.
     - intros q e Hq He. rewrite (Hport q Hq) in He.
       destruct (end_pass_port_spec fall L chg q (ports s q)) as (Hs & Hl & Hx & Hen & Hp & Hrest). rewrite Hx in He.
       pose proof (inv_cov s HI q e Hq He) as Hc. pose proof (inv_noself s HI q e Hq He) as Hns.
-      pose proof (dep_off_ext s s' e HE) as Hdo.
-      unfold covered. rewrite (Hport q Hq). rewrite Hen, Hdo.
+      pose proof (ens_agree s s' (deps e) HE) as Hdo.
+      unfold covered. rewrite (Hport q Hq). rewrite Hen.
       destruct (en (ports s q)) eqn:Eenq; [|left; reflexivity].
       rewrite He in Hrest.
       destruct (triggered fall chg q e (ports s q)) eqn:Et.
-      + destruct Hrest as [Hev Hfo]. right. right. right. right. right. left. exists L. split; [exists (evq (ports s q)); exact Hev|].
+      + destruct Hrest as [Hev Hfo]. right. right. right. right. left. exists L. split; [exists (evq (ports s q)); exact Hev|].
         intros d _. rewrite HL. reflexivity.
       + destruct Hrest as [Hev Hfo]. rewrite Hev, Hfo. unfold triggered in Et.
         apply orb_false_iff in Et. destruct Et as [Et0 Et2]. apply orb_false_iff in Et0. destruct Et0 as [Et0 Et1].
-        unfold covered in Hc. destruct Hc as [H|[H|[H|[(d & Hd & Hin)|[H|[(sn & Hla & Ha)|(Hevq & Hst)]]]]]].
+        unfold covered in Hc. destruct Hc as [H|[H|[H|[(d & Hd & Hin)|[(sn & Hla & Ha)|(Hevq & Hst)]]]]].
         * rewrite Eenq in H. discriminate.
         * rewrite H in Et1. discriminate.
         * subst fall. rewrite H in Et0. discriminate.
@@ -578,9 +572,8 @@ Section HubThm.
             - apply negb_true_iff. apply Nat.eqb_neq. intros ->. contradiction.
             - apply mem_In. exact Hin. }
           rewrite Hex in Et2. discriminate.
-        * right. right. right. right. left. exact H.
-        * right. right. right. right. right. left. exists sn. split; [exact Hla|]. intros d Hd. rewrite HL. apply Ha. exact Hd.
-        * right. right. right. right. right. right. split; [exact Hevq|]. unfold settled in *.
+        * right. right. right. right. left. exists sn. split; [exact Hla|]. intros d Hd. rewrite HL. apply Ha. exact Hd.
+        * right. right. right. right. right. split; [exact Hevq|]. unfold settled in *.
           rewrite (target_ext s s' q e Hdo) by (intros d _; apply HL).
           destruct (target s q e) as [g|]; [|exact I]. rewrite Hp, Hs.
           unfold unrefresh. destruct (ph (ports s q)) eqn:E0; cbn [ph]; rewrite ?E0; exact Hst.
@@ -636,6 +629,9 @@ Section HubThm.
   Qed.
 
   (* ---------------- Disable *)
+  (* disabling an enabled port changes what every expression reading it evaluates to (an error for most functions, but
+     AVAILABLE / DEFAULT catch it): the step sets the global force flag, so every expression is covered again.  Disabling a
+     disabled port changes nothing. *)
   Lemma inv_Disable s p s' : Inv s -> wf_event s (Disable p) -> step s (Disable p) = Some s' -> Inv s'.
   Proof.
     intros HI (Hp & Hevq & Hidle) H. cbn [Hub.step] in H. injection H as <-.
@@ -647,35 +643,22 @@ Section HubThm.
     assert (Hother : forall q, q <> p -> ports s' q = ports s q) by (intros q Hn; subst s'; cbn [ports]; apply upd_neq; exact Hn).
     assert (Hids : all_ids s' = all_ids s) by reflexivity.
     assert (Hpass : pass s' = pass s) by reflexivity.
-    assert (Hfa : force_all s' = true \/ force_all s' = force_all s).
-    { subst s' fa. cbn [force_all]. destruct (en (ports s p) && dfa); [left|right]; reflexivity. }
-    assert (HLo : forall r, r <> p -> lasts s' r = lasts s r).
-    { intros r Hn. unfold Hub.lasts. rewrite Hids, (Hother r Hn). reflexivity. }
-    assert (HEo : forall d, d <> p -> en (ports s' d) = en (ports s d)) by (intros d Hn; rewrite (Hother d Hn); reflexivity).
+    assert (Hfa : force_all s' = true \/ (en (ports s p) = false /\ force_all s' = force_all s)).
+    { subst s' fa. cbn [force_all]. rewrite dfa_true, andb_true_r. destruct (en (ports s p)); [left|right; split]; reflexivity. }
     clearbody s'.
     constructor; rewrite ?Hids, ?Hpass.
-    - intros q e Hq He. destruct Hfa as [Ht|Hfa]; [unfold covered; right; right; left; exact Ht|].
+    - intros q e Hq He. destruct Hfa as [Ht|[Eoff Hfa]]; [unfold covered; right; right; left; exact Ht|].
+      (* already disabled: nothing the invariant looks at changed *)
       destruct (Nat.eq_dec q p) as [->|Hn].
       + unfold covered. left. rewrite Hsame. reflexivity.
       + rewrite (Hother q Hn) in He.
-        destruct (in_dec Nat.eq_dec p (deps e)) as [Hin|Hnin].
-        * unfold covered. right. right. right. right. left. unfold Hub.dep_off. apply existsb_exists. exists p.
-          split; [exact Hin|]. rewrite Hsame. reflexivity.
-        * pose proof (inv_cov s HI q e Hq He) as Hc.
-          assert (Hdo : dep_off s' e = dep_off s e).
-          { unfold Hub.dep_off. clear -Hnin HEo. induction (deps e) as [|d l IH]; [reflexivity|]. cbn [existsb].
-            rewrite HEo by (intros ->; apply Hnin; left; reflexivity). rewrite IH; [reflexivity|]. intros Hc. apply Hnin. right. exact Hc. }
-          assert (Hag : agree (deps e) (lasts s') (lasts s)) by (intros d Hd; apply HLo; intros ->; contradiction).
-          unfold covered in *. rewrite (Hother q Hn), Hdo, Hfa. unfold changed_of in *. rewrite Hpass.
-          destruct Hc as [H|[H|[H|[(d & Hd & Hin)|[H|[(sn & Hla & Ha)|(Hev & Hst)]]]]]].
-          -- left. exact H.
-          -- right. left. exact H.
-          -- right. right. left. exact H.
-          -- right. right. right. left. exists d. split; [exact Hd|exact Hin].
-          -- right. right. right. right. left. exact H.
-          -- right. right. right. right. right. left. exists sn. split; [exact Hla|]. intros d Hd. rewrite Hag by exact Hd. apply Ha. exact Hd.
-          -- right. right. right. right. right. right. split; [exact Hev|]. unfold settled in *.
-             rewrite (target_ext s s' q e Hdo Hag). exact Hst.
+        assert (HE : forall d, en (ports s' d) = en (ports s d)).
+        { intros d. destruct (Nat.eq_dec d p) as [->|Hd]; [rewrite Hsame, Eoff; reflexivity|rewrite (Hother d Hd); reflexivity]. }
+        assert (HL : forall r, lasts s' r = lasts s r).
+        { apply lasts_ext; [exact Hids|]. intros r _. split; [|apply HE].
+          destruct (Nat.eq_dec r p) as [->|Hr]; [rewrite Hsame; reflexivity|rewrite (Hother r Hr); reflexivity]. }
+        apply (covered_ext s); [apply Hother; exact Hn|intros Ht; rewrite Hfa; exact Ht|exact HE|exact HL| |apply (inv_cov s HI q e Hq He)].
+        intros d Hd. unfold changed_of in *. rewrite Hpass. exact Hd.
     - intros q Hq He Hph. destruct (Nat.eq_dec q p) as [->|Hn].
       + rewrite Hsame in *. subst x'. cbn [src last expr ph] in *. apply (inv_sync s HI p Hp He Hph).
       + rewrite (Hother q Hn) in *. apply (inv_sync s HI q Hq He Hph).
@@ -725,15 +708,14 @@ Section HubThm.
     unfold Hub.follows. destruct (en (ports s q)) eqn:Een; [|exact I].
     destruct (expr (ports s q)) as [e|] eqn:He; [|exact I].
     pose proof (inv_cov s HI q e Hin He) as Hc. unfold covered in Hc.
-    destruct Hc as [H|[H|[H|[(d & Hd & Hc)|[H|[(sn & [l' Hl] & Ha)|(_ & Hst)]]]]]].
+    destruct Hc as [H|[H|[H|[(d & Hd & Hc)|[(sn & [l' Hl] & Ha)|(_ & Hst)]]]]].
     - rewrite Een in H. discriminate.
     - rewrite H in Hfo. discriminate.
     - rewrite H in Hfall. discriminate.
     - unfold changed_of in Hc. rewrite Hpass in Hc. destruct Hc.
-    - rewrite H. exact I.
     - rewrite Hevq in Hl. destruct l'; discriminate.
-    - unfold settled, target in Hst. destruct (dep_off s e); [exact I|].
-      destruct (feval e (lasts s)) as [v|]; [|exact I]. destruct (coerce q v) as [v'|]; [|exact I].
+    - unfold settled, target in Hst.
+      destruct (feval e (ens s) (lasts s)) as [v|]; [|exact I]. destruct (coerce q v) as [v'|]; [|exact I].
       rewrite Hph in Hst. split; [apply veqb_spec; symmetry; exact Hst|apply Hsl; reflexivity].
   Qed.
 
